@@ -758,7 +758,8 @@ class Node:
         if new_parent._tree is not self._tree:
             raise NotImplementedError("Can only move nodes inside same tree")
 
-        self._parent._children.remove(self)  # type: ignore
+        # NOTE: `list.remove()` checks for equality ('=='), not identity!
+        del self._parent._children[Node.get_index(self)]  # type: ignore
         if not self._parent._children:  # store None instead of `[]`
             self._parent._children = None
         self._parent = new_parent
@@ -802,7 +803,8 @@ class Node:
             self.remove_children()
 
         pc = self._parent._children
-        pc.remove(self)  # type: ignore
+        # NOTE: `list.remove()` checks for equality ('=='), not identity!
+        del pc[Node.get_index(self)]  # type: ignore
         if not pc:  # store None instead of `[]`
             pc = self._parent._children = None
 
